@@ -124,6 +124,18 @@ class NewGen:
             decl = self.struct(ename, depth + 1, opts)
             e = {"k": "e", "decl": decl, "ptr": self.rng.random() < 0.45,
                  "new": depth == 0 and opts.get("new") and self.rng.random() < opts["new"], "pkg": None}
+            if depth == 0 and self.rng.random() < opts.get("generic_embed", 0.0):
+                # the embedded struct is GENERIC and embedded as an instantiation (`Base[int]`): one of its fields has the parameter type
+                decl["tparams"] = [(["K"], "comparable")]
+                e["targs"] = [self.rng.choice(["int", "string"])]
+                fs = [m for m in decl["members"] if m["k"] == "f"]
+                for m in fs:
+                    m.pop("group", None)      # a multi-name declaration shares ONE type
+                if fs:
+                    fs[0]["type"] = "K"
+                    fs[0]["def"] = None
+                else:
+                    decl["members"].append({"k": "f", "name": "gk%d" % self.ename, "type": "K", "new": False, "def": None, "tagskip": False})
             members.insert(self.rng.randint(0, len(members)), e)
         # multi-name declarations (`a, B int` sharing doc comment and tag), possibly of mixed exportedness
         if self.rng.random() < opts.get("group", 0.2):
@@ -232,7 +244,8 @@ def render_struct(s):
         else:
             if m.get("new"):
                 lines.append("\t// shoot: new")
-            lines.append("\t%s%s%s" % ("*" if m["ptr"] else "", "sub." if m.get("pkg") == "sub" else "", m["decl"]["name"]))
+            targs = "[" + ", ".join(m["targs"]) + "]" if m.get("targs") else ""
+            lines.append("\t%s%s%s%s" % ("*" if m["ptr"] else "", "sub." if m.get("pkg") == "sub" else "", m["decl"]["name"], targs))
     lines.append("}")
     return "\n".join(lines)
 
@@ -360,7 +373,8 @@ def members_sexp(s, top=True):
             out.append(item)
         else:
             d = m["decl"]
-            out.append(["e", Q(d["name"]), Q(("sub." if m.get("pkg") == "sub" else "") + d["name"]), "ptr" if m["ptr"] else "val", "new" if m.get("new") else "nonew",
+            targs = "[" + ", ".join(m["targs"]) + "]" if m.get("targs") else ""
+            out.append(["e", Q(d["name"]), Q(("sub." if m.get("pkg") == "sub" else "") + d["name"] + targs), "ptr" if m["ptr"] else "val", "new" if m.get("new") else "nonew",
                         ["body"] + members_sexp(d, False)])
     return out
 
@@ -395,6 +409,8 @@ def count_features(s, feats=None, depth=0):
             inc("embed-ptr" if m["ptr"] else "embed-val")
             if m.get("pkg") == "sub":
                 inc("embed-other-package")
+            if m.get("targs"):
+                inc("embed-generic-instance")
             inc("embed-depth-%d" % (depth + 1))
             if m.get("new"):
                 inc("embed-new-mark")
